@@ -274,6 +274,18 @@ func init() {
 				}
 				items = append(items, exploreCap("C12", sc, b, true, 120))
 			}
+			// the concurrent shapes again under the second internal scheduling policy (a woken goroutine runs before its
+			// waker goes on): registration of the waiter, the pool hand-off and the callers interleave in the opposite order
+			for _, sc := range wakeTwins(FamilyAPI(tier)) {
+				if !strings.HasPrefix(sc.Name, "api-conc") {
+					continue
+				}
+				b := 3
+				if tier == "thorough" {
+					b = Unbounded
+				}
+				items = append(items, exploreCap("C12", sc, b, true, 120))
+			}
 			return items
 		},
 	})
